@@ -1,7 +1,7 @@
 #!/bin/bash
 # verify_seed_auto.sh <seed ID dir name under /tmp/seed> [worktree ID] : verify both seeds (placement parsed from README)
 ID=$1; WT=${2:-$1}
-for n in 1 2; do
+for n in 1 2; do [ -f /tmp/seed/$ID/$n/patch.diff ] || continue;
   S=/tmp/seed/$ID/$n
   P=$(grep -oE "crates/[a-z0-9_]+/(tests|examples)/[A-Za-z0-9_]+\.rs" $S/README.md | head -1)
   CR=$(echo $P | cut -d/ -f2); T=$(basename $P .rs)
